@@ -50,12 +50,13 @@ type podSpec struct {
 }
 
 type op struct {
-	Kind string   `json:"kind"` // add | update | delete | peek | chan; stream async: ix-add | ix-update | ix-delete | handle | begin | finish
+	Kind string   `json:"kind"` // add | update | delete | peek | chan | push | drain; stream async: ix-add | ix-update | ix-delete | handle | begin | finish
 	Pod  *podSpec `json:"pod,omitempty"`
 	Old  *podSpec `json:"old,omitempty"`
 	IP   string   `json:"ip,omitempty"`
 	Tomb bool     `json:"tomb,omitempty"` // delete delivered as cache.DeletedFinalStateUnknown
 	T    int      `json:"t,omitempty"`    // stream async: lookup id of begin / finish
+	N    int      `json:"n,omitempty"`    // drain: number of answers to read (0 = all unread)
 }
 
 type input struct {
@@ -234,10 +235,158 @@ func runCase(in input) hlib.Case {
 	last := map[string]string{} // ip -> last answer (canonical text), to see whether answers change
 	monitor := func(f string, a ...interface{}) { c.Monitors = append(c.Monitors, fmt.Sprintf(f, a...)) }
 
+	// ids of the pods serving on ip right now, according to the harness's own mirror
+	holdersOf := func(ip string) []string {
+		var hs []string
+		for _, p := range mirror {
+			if p.serving() && p.IP == ip {
+				hs = append(hs, p.NS+"/"+p.Name)
+			}
+		}
+		sort.Strings(hs)
+		return hs
+	}
+	// direct monitor, independent of the model: on an informer-conformant history the identity
+	// answered for ip must be that of a pod that served on ip at the moment of the lookup
+	judge := func(i int, ip string, inst *gostatsd.Instance, holders []string) string {
+		switch {
+		case len(holders) == 0 && inst != nil:
+			return fmt.Sprintf("op %d: lookup %q answered %q but no running non-host-network pod holds that IP", i, ip, inst.ID)
+		case len(holders) > 0 && inst == nil:
+			return fmt.Sprintf("op %d: lookup %q answered nothing but %v holds that IP", i, ip, holders)
+		case len(holders) > 0:
+			for _, h := range holders {
+				if h == string(inst.ID) {
+					return ""
+				}
+			}
+			return fmt.Sprintf("op %d: lookup %q answered %q, current holder(s) %v", i, ip, inst.ID, holders)
+		}
+		return ""
+	}
+	// book-keeping common to every answer; returns the answer as a Coq term
+	record := func(ip, via string, inst *gostatsd.Instance) string {
+		coq, a := coqAnswer(inst)
+		a.IP, a.Via = ip, via
+		if inst != nil {
+			nonNil++
+		}
+		answers = append(answers, a)
+		txt := a.ID + "|" + strings.Join(a.Tags, ",")
+		if prev, ok := last[ip]; ok && prev != txt {
+			changed = true
+		}
+		last[ip] = txt
+		return coq
+	}
+	// IPs received by Provider.Run whose InstanceInfo has not been read from InfoSource yet, with
+	// the holders at the moment of receipt (the real code resolves the instance at receipt)
+	type unreadIP struct {
+		ip      string
+		holders []string
+	}
+	var unread []unreadIP
+	lagged := false
+	wedged := false
+	push := func(i int, ip string) bool {
+		if !running {
+			go func() {
+				defer func() {
+					if r := recover(); r != nil {
+						runPanic <- fmt.Sprint(r)
+					}
+				}()
+				vp.P.Run(ctx)
+			}()
+			running = true
+		}
+		select {
+		case vp.P.IpSink() <- gostatsd.Source(ip):
+			return true
+		case m := <-runPanic:
+			monitor("op %d: Provider.Run panicked: %s", i, m)
+		case <-time.After(10 * time.Second):
+			monitor("op %d: IpSink did not accept %q within 10s", i, ip)
+		}
+		wedged = true
+		return false
+	}
+	read := func(i int) (gostatsd.InstanceInfo, bool) {
+		select {
+		case info := <-vp.P.InfoSource():
+			return info, true
+		case m := <-runPanic:
+			monitor("op %d: Provider.Run panicked while an answer was awaited: %s", i, m)
+		case <-time.After(10 * time.Second):
+			monitor("op %d: no answer on InfoSource within 10s (%d unread)", i, len(unread))
+		}
+		wedged = true
+		return gostatsd.InstanceInfo{}, false
+	}
+	// reads n answers of a lagging consumer: each must be the answer, for ITS OWN ip, of one of the
+	// IPs received and not yet answered (delivery order is the implementation's choice)
+	drain := func(i, n int) {
+		var pairs []string
+		for k := 0; k < n && !wedged; k++ {
+			info, ok := read(i)
+			if !ok {
+				break
+			}
+			ip := string(info.IP)
+			pairs = append(pairs, hlib.Pair(hlib.Bytes(ip), record(ip, "drain", info.Instance)))
+			match, sameIP, why := -1, -1, ""
+			for j, u := range unread {
+				if u.ip != ip {
+					continue
+				}
+				sameIP = j
+				if why = judge(i, ip, info.Instance, u.holders); why == "" {
+					match = j
+					break
+				}
+			}
+			switch {
+			case sameIP < 0:
+				monitor("op %d: InfoSource delivered an answer for %q, which is not among the unread IPs", i, ip)
+				continue
+			case match < 0:
+				match = sameIP
+				if in.Stream != "offcontract" {
+					monitor("%s (resolved when the IP was received; answer read later from InfoSource)", why)
+				}
+			}
+			unread = append(unread[:match], unread[match+1:]...)
+		}
+		if len(pairs) > 0 {
+			evs = append(evs, hlib.App("EDrain", hlib.List(pairs)))
+		}
+	}
+
+	// Provider.Run resolves an IP after the send into IpSink has completed, i.e. concurrently with
+	// whatever the harness does next.  Before an op that touches the store or the memo the harness
+	// therefore pushes a barrier IP (held by no pod, ever): that send completes only when Run is back
+	// at its select, having resolved everything received before; the barrier's own resolution (always
+	// nothing) commutes with every other step.  Reading from InfoSource synchronises in the same way.
+	const barrierIP = "barrier.invalid"
+	unsynced := false
+	settleRun := func(i int) {
+		if unsynced && push(i, barrierIP) {
+			unread = append(unread, unreadIP{barrierIP, nil})
+			evs = append(evs, hlib.App("EPush", hlib.Bytes(barrierIP)))
+		}
+		unsynced = false
+	}
+
 	for i, o := range in.Ops {
 		o := o
-		wedged := false
+		if wedged {
+			break
+		}
 		msg := hlib.Recover(func() {
+			switch o.Kind {
+			case "add", "update", "delete", "peek":
+				settleRun(i)
+			}
 			switch o.Kind {
 			case "add":
 				obj := o.Pod.object()
@@ -267,6 +416,16 @@ func runCase(in input) hlib.Case {
 				delete(mirror, o.Pod.key())
 				evs = append(evs, hlib.App("EDelete", coqPod(o.Pod)))
 			case "peek", "chan":
+				if o.Kind == "chan" && len(unread) > 0 {
+					// a consumer that is already behind: one more IP, one answer (of any unread IP)
+					if push(i, o.IP) {
+						unread = append(unread, unreadIP{o.IP, holdersOf(o.IP)})
+						evs = append(evs, hlib.App("EPush", hlib.Bytes(o.IP)))
+						lagged = true
+						drain(i, 1)
+					}
+					return
+				}
 				var inst *gostatsd.Instance
 				if o.Kind == "peek" {
 					var hit bool
@@ -275,83 +434,41 @@ func runCase(in input) hlib.Case {
 						monitor("op %d: Peek(%q) reported a cache miss", i, o.IP)
 					}
 				} else {
-					if !running {
-						go func() {
-							defer func() {
-								if r := recover(); r != nil {
-									runPanic <- fmt.Sprint(r)
-								}
-							}()
-							vp.P.Run(ctx)
-						}()
-						running = true
-					}
-					select {
-					case vp.P.IpSink() <- gostatsd.Source(o.IP):
-					case m := <-runPanic:
-						monitor("op %d: Provider.Run panicked: %s", i, m)
-						wedged = true
-						return
-					case <-time.After(10 * time.Second):
-						monitor("op %d: IpSink did not accept %q within 10s", i, o.IP)
-						wedged = true
+					if !push(i, o.IP) {
 						return
 					}
-					select {
-					case info := <-vp.P.InfoSource():
-						if string(info.IP) != o.IP {
-							monitor("op %d: asked for %q, InfoSource answered for %q", i, o.IP, info.IP)
-						}
-						inst = info.Instance
-					case m := <-runPanic:
-						monitor("op %d: Provider.Run panicked while looking up %q: %s", i, o.IP, m)
-						wedged = true
-						return
-					case <-time.After(10 * time.Second):
-						monitor("op %d: no answer on InfoSource for %q within 10s", i, o.IP)
-						wedged = true
+					info, ok := read(i)
+					if !ok {
 						return
 					}
+					if string(info.IP) != o.IP {
+						monitor("op %d: asked for %q, InfoSource answered for %q", i, o.IP, info.IP)
+					}
+					inst = info.Instance
 				}
-				a := answer{IP: o.IP, Via: o.Kind, Nil: inst == nil}
-				coq := "None"
-				if inst != nil {
-					a.ID = string(inst.ID)
-					a.Tags = append([]string{}, inst.Tags...)
-					sort.Strings(a.Tags)
-					coq = hlib.Option(hlib.Pair(hlib.Bytes(a.ID), hlib.StrList(a.Tags)), true)
-					nonNil++
-				}
-				answers = append(answers, a)
-				evs = append(evs, hlib.App("ELookup", hlib.Bytes(o.IP), coq))
-				txt := a.ID + "|" + strings.Join(a.Tags, ",")
-				if prev, ok := last[o.IP]; ok && prev != txt {
-					changed = true
-				}
-				last[o.IP] = txt
-				// direct monitor, independent of the model: on an informer-conformant history the
-				// identity answered must be that of a pod serving on this IP right now
+				evs = append(evs, hlib.App("ELookup", hlib.Bytes(o.IP), record(o.IP, o.Kind, inst)))
 				if in.Stream != "offcontract" {
-					var holders []string
-					for _, p := range mirror {
-						if p.serving() && p.IP == o.IP {
-							holders = append(holders, p.NS+"/"+p.Name)
-						}
+					if why := judge(i, o.IP, inst, holdersOf(o.IP)); why != "" {
+						monitor("%s", why)
 					}
-					switch {
-					case len(holders) == 0 && inst != nil:
-						monitor("op %d: lookup %q answered %q but no running non-host-network pod holds that IP", i, o.IP, a.ID)
-					case len(holders) > 0 && inst == nil:
-						monitor("op %d: lookup %q answered nothing but %v holds that IP", i, o.IP, holders)
-					case len(holders) > 0:
-						found := false
-						for _, h := range holders {
-							found = found || h == a.ID
-						}
-						if !found {
-							monitor("op %d: lookup %q answered %q, current holder(s) %v", i, o.IP, a.ID, holders)
-						}
+				}
+			case "push": // an IP goes into IpSink; its answer is not read yet
+				if push(i, o.IP) {
+					if len(unread) > 0 {
+						lagged = true
 					}
+					unread = append(unread, unreadIP{o.IP, holdersOf(o.IP)})
+					evs = append(evs, hlib.App("EPush", hlib.Bytes(o.IP)))
+					unsynced = true
+				}
+			case "drain": // the consumer reads n answers (0 or too many: all that are unread)
+				n := o.N
+				if n <= 0 || n > len(unread) {
+					n = len(unread)
+				}
+				drain(i, n)
+				if n > 0 {
+					unsynced = false
 				}
 			default:
 				fmt.Fprintln(os.Stderr, "bad op kind:", o.Kind)
@@ -360,11 +477,12 @@ func runCase(in input) hlib.Case {
 		})
 		if msg != "" {
 			monitor("op %d (%s): panic: %s", i, o.Kind, msg)
+			wedged = true
 			break
 		}
-		if wedged {
-			break
-		}
+	}
+	if !wedged && len(unread) > 0 {
+		drain(len(in.Ops), len(unread)) // nothing stays unread: every received IP gets its answer
 	}
 
 	c.Obs = map[string]interface{}{"answers": answers}
@@ -377,6 +495,9 @@ func runCase(in input) hlib.Case {
 		shape = "changing"
 	}
 	c.Class = in.Stream + "/" + shape
+	if lagged {
+		c.Class += "+lag"
+	}
 	c.Nontrivial = changed && nonNil > 0
 	return c
 }
@@ -640,6 +761,8 @@ func genAsync(r *hlib.Rand, tier string) input {
 					handle()
 				}
 			}
+		case "drain":
+			continue
 		default:
 			t := nextT
 			nextT++
@@ -852,6 +975,8 @@ func genCase(r *hlib.Rand, stream, tier string) input {
 		maxOps = 60
 	}
 	nOps := r.Range(6, maxOps)
+	lag := 0          // pushes still to come in the current burst of a lagging consumer
+	var burst []string // IPs of the current burst
 	lookup := func() {
 		ip := genIP(r, nIPs)
 		if r.Chance(1, 2) { // prefer IPs some stored pod carries
@@ -869,6 +994,30 @@ func genCase(r *hlib.Rand, stream, tier string) input {
 		kind := "peek"
 		if r.Chance(1, 4) {
 			kind = "chan"
+		}
+		if lag > 0 && !r.Chance(1, 5) {
+			// lagging consumer: the IP goes into IpSink, nothing is read from InfoSource yet.  The IPs
+			// of one burst: held by distinct pods, unknown, repeated.
+			switch r.Intn(6) {
+			case 0:
+				ip = "10.9.9." + string(rune('0'+r.Intn(3))) // held by nobody
+			case 1:
+				if len(burst) > 0 {
+					ip = hlib.Pick(r, burst) // repeated
+				}
+			}
+			burst = append(burst, ip)
+			in.Ops = append(in.Ops, op{Kind: "push", IP: ip})
+			lag--
+			if lag == 0 {
+				n := 0 // all
+				if len(burst) > 2 && r.Chance(1, 3) {
+					n = r.Range(1, len(burst)-1) // the rest stays unread for a while
+				}
+				in.Ops = append(in.Ops, op{Kind: "drain", N: n})
+				burst = nil
+			}
+			return
 		}
 		in.Ops = append(in.Ops, op{Kind: kind, IP: ip})
 	}
@@ -917,8 +1066,11 @@ func genCase(r *hlib.Rand, stream, tier string) input {
 			observe(&n)
 		}
 	}
-	for len(in.Ops) < nOps {
-		if r.Chance(9, 20) {
+	for len(in.Ops) < nOps || lag > 0 {
+		if lag == 0 && stream != "shared" && r.Chance(1, 25) {
+			lag = r.Range(2, 6) // at least two IPs while answers are unread
+		}
+		if r.Chance(9, 20) || (lag > 0 && r.Chance(1, 2)) {
 			lookup()
 			continue
 		}
